@@ -281,7 +281,7 @@ _snap_native = rt.untraced(snapshot)
 _freeze_native = rt.untraced(_freeze)
 FRAME_SCHEMAS = ["rec_flat", "rec_defaults2", "union_named_mix", "pair_array_record", "pair_map_union", "ref_after_def",
                  "ns_inherit", "rec_list", "enum", "fixed", "prim_long", "union_two_recs"]
-FRAME_QUICK = ["rec_flat", "rec_defaults2", "union_named_mix", "pair_array_record", "ref_after_def", "rec_list", "enum"]
+FRAME_QUICK = ["rec_flat", "rec_defaults2", "union_named_mix", "pair_array_record", "ref_after_def", "enum"]
 FRAME_KINDS = [7, 0, shape.DELETE, 13]  # mutants used to make calls fail: wrong type, None, missing field, non-string map key
 FRAME_OPS = ["write", "roundtrip", "validate", "validate_raise", "container", "json", "parse_pcf"]
 
